@@ -186,6 +186,45 @@ def delete_disabled(spec):
     return s, {"row_map": row_map, "deleted": n}
 
 
+def disable_candidates(spec):
+    """{kind: [op positions]} of elements that are in service and can be switched off on their own: every element kind
+    with an in_service flag, valves (opened); ext grids and circulation pumps only next to a second one in service"""
+    out = {}
+    for i, (fn, kw) in enumerate(spec["ops"]):
+        if fn == "create_junction":
+            continue
+        if fn == "create_valve":
+            on = kw.get("opened", True) and kw.get("et", "ju") == "ju"
+        else:
+            on = kw.get("in_service", True)
+        if on:
+            kind = TBL[fn]
+            if fn == "create_flow_control":
+                kind += "_active" if kw.get("control_active", True) else "_passive"
+            out.setdefault(kind, []).append(i)
+    supplies = ("ext_grid", "circ_pump_pressure", "circ_pump_mass")
+    if sum(len(out.get(k, [])) for k in supplies) < 2:       # the last pressure-fixing element stays
+        for k in supplies:
+            out.pop(k, None)
+    keep = pi_valve_pipes(spec)
+    if "pipe" in out:
+        out["pipe"] = [i for i in out["pipe"] if spec["ops"][i][1]["index"] not in keep]
+        if not out["pipe"]:
+            out.pop("pipe")
+    return out
+
+
+def disable(spec, position):
+    """the same net with one more element switched off (opened=False for a valve, in_service=False otherwise)"""
+    s = copy.deepcopy(spec)
+    fn, kw = s["ops"][position]
+    if fn == "create_valve":
+        kw["opened"] = False
+    else:
+        kw["in_service"] = False
+    return s
+
+
 # ------------------------------------------------------------------------------------------ 6 pressure shift
 def shift_pressure(spec, c):
     s = copy.deepcopy(spec)
